@@ -106,12 +106,12 @@ PATTERNS = [
         and _tc_exc(a) == "FrozenInstanceError" and b.get("status") == "ok"),
     ("D171-consolidate-inplace-with-nested-lazy-tensorclass", lambda c, a, b, f: c["name"] == "consolidate" and c.get("embed") == "outer"
         and c["layout"] in ("lazy", "lazyhet") and _tc_exc(a) == "ValueError" and "LazyStackedTensorDict" in _msg(a) and b.get("status") == "ok"),
-    ("D172-load_state_dict-with-nested-tensorclass", lambda c, a, b, f: c["name"] == "load_state_dict" and c.get("embed") == "outer"
-        and _tc_exc(a) == "KeyError" and "__batch_size" in _msg(a) and b.get("status") == "ok"),
     ("D173-grad-tests-a-bound-method", lambda c, a, b, f: c["name"] == "grad" and c["mode"] == "attr" and not c.get("embed")
         and _tc_exc(a) == "RuntimeError" and "Expected a TensorDictBase" in _msg(a) and _res(b) == ["PY", "None"]),
     ("D174-consolidate-to-file-with-nested-tensorclass", lambda c, a, b, f: c.get("recipe") == "consolidated" and c.get("embed") == "outer"
         and _tc_exc(a) == "RuntimeError" and "json" in _msg(a) and b.get("status") == "ok"),
+    ("D177-non-tensor-stack-result-wrapped-in-the-class", lambda c, a, b, f: c["mode"] == "call" and not c.get("embed")
+        and "nontensor-wrapped" in f and a.get("status") == "ok" and _only(f, "wrap") and '"stack"' in json.dumps(_res(b))),
     ("D175-indices-reductions-drop-nested-class", lambda c, a, b, f: c["name"] in ("max", "min", "cummax", "cummin") and c.get("embed") == "outer"
         and a.get("status") == "ok" and _only(f, "wrap")),
 ]
